@@ -3,6 +3,7 @@ import DhcpProofs.Lemmas.V6BuildMsg
 import DhcpProofs.Lemmas.V6BuildDecoded
 import DhcpProofs.Lemmas.V6BuildIndex
 import DhcpProofs.Lemmas.V6BuildMods
+import DhcpProofs.Lemmas.V6Fuel
 /-
   C16 — DHCPv6 builders and relay encapsulation preserve identity and nesting.
   Model: Dhcp/V6/Build.lean (EncapsulateRelay, DecapsulateRelay,
@@ -120,6 +121,41 @@ theorem C16_inner_wire (m : Msg6) (hm : m.isRelay = false) (h : Hdr) (rest : Lis
   cases h1
   rw [hwire]
   exact h2
+
+/-- **C16 (… after a trip over the wire, composed with the round trip).** For a
+chain in the round-trip domain of C02 (`WFMsg c`: 16-byte link and peer
+addresses, relay types, well-formed options whose encodings fit their 16-bit
+lengths, at every level) the hypothesis of `C16_inner_wire` is discharged by
+`dec6_encMsg` (= `C02_roundtrip`): encoding the n-fold encapsulation, decoding
+it and asking for the innermost message returns the message that was wrapped. -/
+theorem C16_inner_wire_wf (m : Msg6) (hm : m.isRelay = false) (h : Hdr) (rest : List Hdr)
+    (ht : ∀ x ∈ h :: rest, isRelayType x.typ = true) (c : Msg6)
+    (hc : encapAll m (h :: rest) = .ok c) (hwf : WFMsg c) :
+    (dec6 (encMsg c)).bind getInnerMessage = .ok m :=
+  C16_inner_wire m hm h rest ht c hc (dec6_encMsg c hwf)
+
+/-- non-vacuity: a SOLICIT wrapped twice (RELAY-FORW in RELAY-FORW) is in the
+round-trip domain, so the theorem above applies to it -/
+example :
+    let m : Msg6 := .msg 1 [7, 8, 9] [.generic 4242 [1, 2, 3]]
+    let hs : List Hdr := [⟨12, some (zeros 16), some (zeros 16)⟩, ⟨12, some (zeros 16), some (zeros 16)⟩]
+    ∃ c, encapAll m hs = .ok c ∧ WFMsg c ∧ (dec6 (encMsg c)).bind getInnerMessage = .ok m := by
+  intro m hs
+  have hz : IP16 (some (zeros 16)) := ⟨zeros 16, rfl, by simp⟩
+  refine ⟨.relay 12 1 (some (zeros 16)) (some (zeros 16))
+      [.relayMsg (.relay 12 0 (some (zeros 16)) (some (zeros 16)) [.relayMsg m])], by rfl, ?_, ?_⟩
+  · refine ⟨by decide, hz, hz, ?_, by decide, trivial⟩
+    refine ⟨by decide, hz, hz, ?_, by decide, trivial⟩
+    exact ⟨by decide, by decide, ⟨by decide, by decide⟩, by decide, trivial⟩
+  · exact C16_inner_wire_wf m rfl ⟨12, some (zeros 16), some (zeros 16)⟩ [⟨12, some (zeros 16), some (zeros 16)⟩]
+      (by
+        intro x hx
+        simp only [List.mem_cons, List.not_mem_nil, or_false] at hx
+        rcases hx with rfl | rfl <;> rfl) _ (by rfl)
+      (by
+        refine ⟨by decide, hz, hz, ?_, by decide, trivial⟩
+        refine ⟨by decide, hz, hz, ?_, by decide, trivial⟩
+        exact ⟨by decide, by decide, ⟨by decide, by decide⟩, by decide, trivial⟩)
 
 /-- **C16 (innermost message of ANY relay chain).** Whatever other options the
 levels carry and wherever the relay-message option sits among them: if following
